@@ -290,8 +290,11 @@ func TestVerifC02(t *testing.T) {
 		lastObs = o
 		ok, msg, classes := c02Monitor(ps.cfg, q, &o, viaCache && ctor == "CRepeat")
 		res := o.Result
+		var defs []vfDef
+		coq := plCaseCoqShared(ctor, ps, q, &o, &defs)
 		c := vfCase{
-			Coq:        plCaseCoqAs(ctor, ps, q, &o),
+			Coq:        coq,
+			Defs:       defs,
 			Nontrivial: res != nil && res.IsFiltered && o.OrigKept || len(q.Answer.Answer) > 0,
 			Classes:    append(classes, extra...),
 			MonitorOK:  ok,
@@ -505,6 +508,7 @@ func TestVerifC02(t *testing.T) {
 				q.Name = vfMixCase(rnd, vfPick(rnd, plXNames)) + "."
 			}
 			q.Answer = c02Answer(rnd, q.Name, q.QType)
+			q.PrintAskedOnly = true
 			delete(q.Extra, strings.ToLower(q.Name))
 			for n := range q.Extra {
 				if q.Extra[n] != nil {
